@@ -20,7 +20,7 @@ ASSUMPTIONS = ["master holds cyc/stb/adr/we/sel/dat_w/cti/bte until ack; burst m
                "master addresses restricted to the backing memory / remap window size (beyond it aliasing is by design)",
                "CSR bridge: full-word selects only (CSR registers are word registers), CSR bus width = Wishbone width",
                "widths scaled down (8..64 bit), memory depth 4..16 words, cache sizes 2/4/8 words"]
-BOUNDS = {"quick": "BMC K=12 cycles from reset", "thorough": "BMC K=18 cycles from reset (cache K=16), all ratio/geometry configurations"}
+BOUNDS = {"quick": "BMC K=12 cycles from reset", "thorough": "BMC K=18 cycles from reset (cache K=16, wide-master cache K=22, bursting SRAM K=14), all ratio/geometry configurations"}
 OUTSIDE = "histories longer than K cycles; slaves other than the real SRAM for the cache/remapper/CSR bridge (the width converters are also checked in front of ANY legal slave: symbolic latency >= 0) (in particular long dirty-eviction chains beyond K); cache sizes > 8 words; byte-addressed interfaces"
 FUNCS = ["litex.soc.interconnect.wishbone.DownConverter", "litex.soc.interconnect.wishbone.UpConverter", "litex.soc.interconnect.wishbone.Converter",
          "litex.soc.interconnect.wishbone.Cache", "litex.soc.interconnect.wishbone.Remapper", "litex.soc.interconnect.wishbone.Wishbone2CSR",
@@ -409,10 +409,10 @@ def jobs(tier):
     K = 18 if T else 12
     js.append(Job("sram_d8x16", build_sram, dict(dw=8, depth=16, bursting=False, read_only=False, K=K), cost=3))
     js.append(Job("sram_d32x4_ro", build_sram, dict(dw=32, depth=4, bursting=False, read_only=True, K=K), cost=2))
-    js.append(Job("sram_d16x16_burst", build_sram, dict(dw=16, depth=16, bursting=True, read_only=False, K=(K if T else 10)), cost=40))
+    js.append(Job("sram_d16x16_burst", build_sram, dict(dw=16, depth=16, bursting=True, read_only=False, K=(14 if T else 10)), cost=40))      # (K=18: the excused twin of the listed burst finding went unknown after 900 s)
     if T:
         js.append(Job("sram_d32x8", build_sram, dict(dw=32, depth=8, bursting=False, read_only=False, K=K), cost=3))
-        js.append(Job("sram_d8x32_burst", build_sram, dict(dw=8, depth=32, bursting=True, read_only=False, K=K), cost=12))
+        js.append(Job("sram_d8x32_burst", build_sram, dict(dw=8, depth=32, bursting=True, read_only=False, K=14), cost=12))
         js.append(Job("sram_d16x16_burst_ro", build_sram, dict(dw=16, depth=16, bursting=True, read_only=True, K=K), cost=8))
     convs = [(32, 8, 16, False), (8, 32, 4, False), (16, 8, 8, True)]
     if T:
@@ -423,7 +423,8 @@ def jobs(tier):
     if T:
         caches += [(8, 8, 8, 32), (4, 16, 8, 16), (8, 8, 32, 4), (2, 8, 8, 8)]
     for (cs, dwm, dws, d) in caches:
-        js.append(Job("cache%d_%dto%d" % (cs, dwm, dws), build_cache, dict(cachesize=cs, dwm=dwm, dws=dws, depth_s=d, K=(16 if T else 12)), cost=30, timeout_s=3400))
+        # (master wider than slave: a dirty line is evicted in several slave words and refilled later - write, conflicting access, read back needs ~20 cycles)
+        js.append(Job("cache%d_%dto%d" % (cs, dwm, dws), build_cache, dict(cachesize=cs, dwm=dwm, dws=dws, depth_s=d, K=(22 if dwm > dws else 16 if T else 12)), cost=30, timeout_s=3400))
     js.append(Job("cache2_8to8_anyslave", build_cache, dict(cachesize=2, dwm=8, dws=8, depth_s=8, K=(14 if T else 12), anyslave=True), cost=40, timeout_s=3400))
     js.append(Job("warmcache4_8to8", build_cache_warm, dict(cachesize=4, depth_s=16, K=(18 if T else 16)), cost=60, timeout_s=3400))
     js.append(Job("down_burst_16to8", build_conv_burst, dict(dwm=16, dws=8, depth_s=32, K=(16 if T else 12)), cost=40, timeout_s=3400))
